@@ -33,11 +33,22 @@ def crash : P String := do
   let h ← P.tok; let c ← P.tok; P.bar; let kind ← P.tok
   return s!"fail {h} {kind} case={c}"
 
+/-- `fgcopy | <dump of source> | <dump of copy>` : a copy-constructed FactorGraph must be an exact replica
+    (the static node pool is unobservable: AITB.Hidden.pool_unobservable / copy_is_replica) -/
+def fgcopy (toks : List String) : String :=
+  match toks with
+  | "|" :: rest =>
+      let a := rest.takeWhile (· != "|")
+      let b := (rest.dropWhile (· != "|")).drop 1
+      if a == b then (if a.length ≤ 2 then "ok trivial" else "ok fgcopy") else s!"fail FactorGraph copy_differs src={a.length}tok copy={b.length}tok"
+  | _ => "bad-op"
+
 def handle (toks : List String) : String :=
   (match toks with
    | "match" :: rest => P.run matchOp rest
    | "inst" :: rest => P.run inst rest
    | "range" :: rest => P.run range rest
+   | "fgcopy" :: rest => some (fgcopy rest)
    | "crash" :: rest => P.run crash rest
    | _ => none).getD "bad-op"
 end DrvC10
